@@ -251,6 +251,9 @@ static uint32_t level_mask(int fd)
 		if (c->inq_head < c->inq_n || c->fin_in || (c->reset && c->reset_how == RST_READ)) {
 			m |= EPOLLIN;
 		}
+		if (c->fin_in) {
+			m |= EPOLLRDHUP; /* like Linux: reported (if asked for) as soon as the peer has shut down its sending side, unread data or not */
+		}
 		if (c->window != 0) {
 			m |= EPOLLOUT;
 		}
